@@ -264,7 +264,7 @@ def run_check(pid, tier, module):
         if not lean['ok']:
             broken_obligation = lean['detail']
         # ---- verdict
-        findings = [f for f in load_findings() if f['property'] == pid and f['status'] == 'open']
+        findings = [f for f in load_findings() if pid in f['properties'] and f['status'] == 'open']
         for f in findings:
             hits = ctx.known_hits.get(f['id'], 0)
             if hits or f.get('always_report'):
